@@ -1867,8 +1867,12 @@ class SolveUnc(_BaseODE):
         if self.rbsize and incrb:
             rb = self.rb
             if self.m is not None:
-                if unc:
+                if unc and self.systype is float:
                     a_rb = self.invm[self._rb] * force[rb]
+                elif unc:
+                    # complex uncoupled: get_su_eig reduced m to the
+                    # elastic part; rb mass is in imrb
+                    a_rb = self.imrb * force[rb]
                 else:
                     a_rb = la.lu_solve(self.imrb, force[rb], check_finite=False)
             else:
